@@ -28,6 +28,11 @@ pub fn sources(seed: u64) -> Vec<Src> {
             k += 1;
         }
     }
+    // contents whose compressed form is exactly as long as they are
+    for (m, c) in neutral_contents() {
+        calls.push(Call::StartFile { name: format!("neutral-m{m}"), opts: FOpts::m(m) });
+        calls.push(Call::Write(c));
+    }
     calls.push(Call::AddDir { name: "adir".into(), opts: FOpts { perm: Some(0o700), ..FOpts::m(0) } });
     calls.push(Call::AddSymlink { name: "alink".into(), target: "adir".into(), opts: FOpts::m(0) });
     calls.push(Call::Finish);
